@@ -123,6 +123,54 @@ def ensure(config="full", repo=REPO):
         lock.close()
 
 
+def fixture_facts(name):
+    """facts of a control crate under /verif/fixtures (exported on demand, cached by content + exporter hash)"""
+    src = os.path.join(VERIF, "fixtures", name)
+    h = hashlib.sha256()
+    for root, dirs, files in sorted(os.walk(src)):
+        dirs[:] = sorted(d for d in dirs if d != "target")
+        for f in sorted(files):
+            if f == "Cargo.lock":
+                continue
+            h.update(f.encode())
+            with open(os.path.join(root, f), "rb") as fh:
+                h.update(fh.read())
+    with open(DRIVER, "rb") as fh:
+        h.update(hashlib.sha256(fh.read()).digest())
+    dest = os.path.join(CACHE, "fixture-%s-%s" % (name, h.hexdigest()[:16]))
+    if not os.path.exists(os.path.join(dest, "COMPLETE")):
+        os.makedirs(CACHE, exist_ok=True)
+        scratch = tempfile.mkdtemp(prefix="tfacts-fix.")
+        try:
+            work = os.path.join(scratch, "src")
+            shutil.copytree(src, work, ignore=shutil.ignore_patterns("target", "Cargo.lock"))
+            out = os.path.join(scratch, "out")
+            os.makedirs(out)
+            env = dict(os.environ, TFACTS_CRATES=name, TFACTS_HIR_ONLY="")
+            p = subprocess.run([os.path.join(VERIF, "tfacts", "run_export.sh"), work, out], capture_output=True, text=True, env=env)
+            if p.returncode != 0:
+                sys.stderr.write(p.stderr[-3000:])
+                raise RuntimeError("export of fixture %s failed" % name)
+            tmpdest = dest + ".tmp%d" % os.getpid()
+            shutil.rmtree(tmpdest, ignore_errors=True)
+            shutil.move(out, tmpdest)
+            open(os.path.join(tmpdest, "COMPLETE"), "w").write("ok")
+            shutil.rmtree(dest, ignore_errors=True)
+            os.rename(tmpdest, dest)
+        finally:
+            shutil.rmtree(scratch, ignore_errors=True)
+    with open(os.path.join(dest, name + ".json")) as fh:
+        return FixtureFacts({name: Crate(json.load(fh))})
+
+
+class FixtureFacts:
+    def __init__(self, crates):
+        self.crates = crates
+
+    def __getitem__(self, c):
+        return self.crates[c]
+
+
 class Fn:
     __slots__ = ("d", "crate")
 
